@@ -41,6 +41,15 @@ func recvReady(ch reflect.Value) bool {
 // closedSet remembers channels known to be closed (closed through vrt.Close or observed closed).
 var closedSet = map[uintptr]bool{}
 
+// pinned keeps every channel recorded in closedSet/mailbox reachable until the execution ends: the tables are
+// keyed by address, and the address of a collected channel could otherwise be handed to a NEW channel of the
+// same execution, which would then be taken for closed (observed once in 2.5 million executions of the lock
+// harness as a spurious second grant).
+var pinned []reflect.Value
+
+//go:norace
+func pin(ch reflect.Value) { pinned = append(pinned, ch) }
+
 //go:norace
 func isClosed(ch reflect.Value) bool {
 	p := ch.Pointer()
@@ -57,6 +66,7 @@ func isClosed(ch reflect.Value) bool {
 	x, ok := ch.TryRecv()
 	if x.IsValid() && !ok {
 		closedSet[p] = true
+		pin(ch)
 		return true
 	}
 	if x.IsValid() && ok {
@@ -136,6 +146,7 @@ func doSend(ch reflect.Value, v reflect.Value) {
 	}
 	m := &mail{val: v}
 	mailbox[ch.Pointer()] = m
+	pin(ch)
 	Sched(KSend, &mailWait{m}, "chan.send.rendezvous")
 	if mailbox[ch.Pointer()] == m {
 		delete(mailbox, ch.Pointer())
@@ -274,6 +285,7 @@ func Close[T any](ch chan<- T) {
 	if Managed() {
 		Sched(KYield, nil, "close")
 		closedSet[reflect.ValueOf(ch).Pointer()] = true
+		pin(reflect.ValueOf(ch))
 	}
 	close(ch)
 }
@@ -282,4 +294,5 @@ func Close[T any](ch chan<- T) {
 func resetChans() {
 	mailbox = map[uintptr]*mail{}
 	closedSet = map[uintptr]bool{}
+	pinned = nil
 }
